@@ -1,6 +1,6 @@
 CONSTANTS TraceFile = "trace.ndjson"
   Names = {"a", "b", "c"}
-  Steps = {"s1", "s2"}
+  Steps = {"s0", "s1", "s2"}
 SPECIFICATION Spec
 INVARIANT Emit
 CHECK_DEADLOCK FALSE
